@@ -316,7 +316,52 @@ fn spawn_worker(engine: &str, exe: &Option<String>) -> std::io::Result<Child> {
 
 /// Runs every cell through `verif worker <engine>` child processes (dynamic work distribution).
 /// Returns one result per cell; `None` = not run (deadline) ; a child crash yields a machinery error value.
+/// Engines that talk over real sockets / real processes on the shared loopback interface: the one place where something the
+/// harness does not own (another process's datagram landing on a re-used ephemeral port, a scheduling stall of the whole
+/// box) can leak into an observation.
+const REAL_SOCKET_ENGINES: &[&str] = &["c03", "c05", "c06", "c09", "c12", "e2_xfer", "e2_wrap", "c07_e2", "c13_e2", "c13_e2_abort", "c14_inproc", "c14_bin", "c14_relay", "c16_wire", "c16_cfg"];
+
+/// Runs the cells; for real-socket engines every cell that reported a violation is run a second time (fresh worker
+/// process) and only violations that occur in BOTH runs (same property, clause and facts) are reported — "the same
+/// schedule must fail every time". What did not recur is counted and described under `unreproduced_anomalies` in the
+/// evidence, never silently dropped. Simulated engines are deterministic by construction and have their own re-runs.
 pub fn run_cells(engine: &str, cells: Vec<Value>, opts: &PoolOpts) -> Vec<Option<Value>> {
+    if !REAL_SOCKET_ENGINES.contains(&engine) || std::env::var("VERIF_NO_RECHECK").is_ok() {
+        return run_cells_once(engine, cells, opts);
+    }
+    let mut res = run_cells_once(engine, cells.clone(), opts);
+    let has_viol = |r: &Option<Value>| r.as_ref().and_then(|v| v["violations"].as_array().map(|a| !a.is_empty())).unwrap_or(false);
+    let idxs: Vec<usize> = res.iter().enumerate().filter(|(_, r)| has_viol(r)).map(|(i, _)| i).collect();
+    if idxs.is_empty() {
+        return res;
+    }
+    let sub: Vec<Value> = idxs.iter().map(|i| cells[*i].clone()).collect();
+    let o2 = PoolOpts { nproc: opts.nproc, deadline: opts.deadline.max(Instant::now() + Duration::from_secs(150)), cell_limit: opts.cell_limit, exe: opts.exe.clone() };
+    let res2 = run_cells_once(engine, sub, &o2);
+    for (k, i) in idxs.iter().enumerate() {
+        let Some(second) = res2[k].as_ref() else { continue };
+        if second.get("machinery_error").is_some() {
+            continue; // the second run says nothing: keep what the first one reported
+        }
+        let keys2: BTreeSet<String> = second["violations"].as_array().map(|a| a.iter().map(|v| Violation::from_json(v).group_key()).collect()).unwrap_or_default();
+        let first = res[*i].as_mut().unwrap();
+        let all: Vec<Value> = first["violations"].as_array().cloned().unwrap_or_default();
+        let (kept, gone): (Vec<Value>, Vec<Value>) = all.into_iter().partition(|v| keys2.contains(&Violation::from_json(v).group_key()));
+        if !gone.is_empty() {
+            let n_gone = gone.len() as u64;
+            first["violations"] = Value::Array(kept);
+            let cur = first["extra"]["unreproduced_anomalies"].as_u64().unwrap_or(0);
+            if !first["extra"].is_object() {
+                first["extra"] = json!({});
+            }
+            first["extra"]["unreproduced_anomalies"] = json!(cur + n_gone);
+            first["extra"]["unreproduced_example"] = json!(format!("{} [{}] {}", gone[0]["property"].as_str().unwrap_or(""), gone[0]["clause"].as_str().unwrap_or(""), gone[0]["what"].as_str().unwrap_or("").chars().take(400).collect::<String>()));
+        }
+    }
+    res
+}
+
+fn run_cells_once(engine: &str, cells: Vec<Value>, opts: &PoolOpts) -> Vec<Option<Value>> {
     let n = cells.len();
     let results: Arc<Mutex<Vec<Option<Value>>>> = Arc::new(Mutex::new(vec![None; n]));
     let next = Arc::new(AtomicUsize::new(0));
